@@ -52,6 +52,12 @@ def gen_rule_pairs(rng, clients):
             pairs.append((b"type", rng.choice([b"signal", b"signal", b"signal", b"method_call", b"method_return", b"error"])))
         elif k == "sender":
             cands = [c.unique for c in clients] + WELL + [b"org.freedesktop.DBus"]
+            # a unique name that has not been handed out yet: a later connection may well get it, and the rule then matches
+            try:
+                mx = max(int(c.unique.split(b".")[1]) for c in clients)
+                cands += [b":1.%d" % (mx + 1), b":1.%d" % (mx + 1), b":1.%d" % (mx + 2)]
+            except (ValueError, IndexError):
+                pass
             pairs.append((b"sender", rng.choice(cands)))
         elif k == "interface":
             pairs.append((b"interface", rng.choice(IFACES)))
